@@ -115,6 +115,11 @@ func classifyRace(rep string) (a, b string, ok bool) {
 		return f == "github.com/ja7ad/otp/internal/verifw/worlda.(*env).advBody" ||
 			f == "github.com/ja7ad/otp/internal/verifrt.poison" // poison-on-Put by the next owner of the object
 	}
+	if !oka && !okb && poolSide(fa) && poolSide(fb) {
+		// two legitimate owners scribble over the same pooled object: it was handed
+		// out twice (double Put, or use after Put by a library frame that already returned)
+		return "pool-adversary", "pool-adversary", true
+	}
 	if oka && !okb && poolSide(fb) {
 		return fa, "pool-adversary", true
 	}
